@@ -32,3 +32,4 @@ def check(rep, tier, replay=None):
         "goes through a libm sine / cosine (a polynomial cannot serve every rotation norm), the rounding bound relative to the value stays below 100 x 1e-9, and the value is continuous where the "
         "branches meet.")
     roundir.run_tails(rep, "TT")
+    layers.flush(rep)      # reports of the supplementary source-level layer rules count only if a T rule on the optimized IR fails as well
